@@ -133,27 +133,25 @@ func (g *fileGen) items(max int) []*Item {
 	return out
 }
 
-// decorate adds inline text / moves() arguments to some commands of a block.
+// decorate adds inline text / moves() arguments to some commands of a block
+// (AutoVar commands in conditions included, unless their result var is an argument).
 func (g *fileGen) decorate(b *Block) {
-	walkBlocks(b, func(bb *Block) {
-		for _, s := range bb.Stmts {
-			if s.K != "cmd" {
-				continue
-			}
-			c := s.Cmd
-			if c.Name == "end" || c.Name == "return" || c.Name == "goto" {
-				continue
-			}
-			switch rapid.IntRange(0, 5).Draw(g.t, "inline") {
-			case 0:
-				a := &Arg{Text: g.textVal()}
-				pos := rapid.IntRange(0, len(c.Args)).Draw(g.t, "inlinepos")
-				c.Args = append(c.Args[:pos], append([]*Arg{a}, c.Args[pos:]...)...)
-			case 1:
-				a := &Arg{Moves: g.steps(4), IsMv: true}
-				pos := rapid.IntRange(0, len(c.Args)).Draw(g.t, "inlinepos")
-				c.Args = append(c.Args[:pos], append([]*Arg{a}, c.Args[pos:]...)...)
-			}
+	walkCmdsOrdered(b, func(c *Cmd) {
+		if c.Name == "end" || c.Name == "return" || c.Name == "goto" {
+			return
+		}
+		if spec, ok := g.cfg.CF.Auto[c.Name]; ok && spec.ArgPos != nil {
+			return
+		}
+		switch rapid.IntRange(0, 5).Draw(g.t, "inline") {
+		case 0:
+			a := &Arg{Text: g.textVal()}
+			pos := rapid.IntRange(0, len(c.Args)).Draw(g.t, "inlinepos")
+			c.Args = append(c.Args[:pos], append([]*Arg{a}, c.Args[pos:]...)...)
+		case 1:
+			a := &Arg{Moves: g.steps(4), IsMv: true}
+			pos := rapid.IntRange(0, len(c.Args)).Draw(g.t, "inlinepos")
+			c.Args = append(c.Args[:pos], append([]*Arg{a}, c.Args[pos:]...)...)
 		}
 	})
 }
